@@ -1980,6 +1980,38 @@ class ReaderExtractor:
                     ast.copy_location(nb, b)
                     body = body[:i] + [nb]
                     break
+            # a branch that has read its component must not go on to the loop's trailing skip_value: the header it would skip by
+            # is the one already consumed
+            tail_skips = [i for i, b in enumerate(body) if isinstance(b, ast.Expr) and isinstance(b.value, ast.Call) and isinstance(b.value.func, ast.Attribute)
+                          and b.value.func.attr == "skip_value"]
+            if tail_skips:
+                def falls_through(blk) -> bool:
+                    """can control leave this block by falling off its end?"""
+                    if not blk:
+                        return True
+                    last = blk[-1]
+                    if isinstance(last, (ast.Continue, ast.Break, ast.Return, ast.Raise)):
+                        return False
+                    if isinstance(last, ast.If):
+                        return falls_through(last.body) or falls_through(last.orelse)
+                    return True
+
+                def reading_blocks(blk):
+                    """innermost blocks that contain a read on this reader directly"""
+                    direct = [x for x in blk if not isinstance(x, (ast.If, ast.While, ast.For)) and
+                              any(isinstance(c, ast.Call) and isinstance(c.func, ast.Attribute) and isinstance(c.func.value, ast.Name) and c.func.value.id == rv and
+                                  c.func.attr.startswith("read") for c in ast.walk(x))]
+                    if direct:
+                        yield blk
+                    for x in blk:
+                        if isinstance(x, ast.If):
+                            yield from reading_blocks(x.body)
+                            yield from reading_blocks(x.orelse)
+                for i, b in enumerate(body[:tail_skips[0]]):
+                    if isinstance(b, ast.If):
+                        for blk in list(reading_blocks(b.body)) + list(reading_blocks(b.orelse)):
+                            if falls_through(blk) and falls_through([b]):
+                                node.read_then_skip = getattr(node, "read_then_skip", []) + [(blk[0].lineno, norm(blk[-1])[:60])]
             for b in body:
                 if b is peeks[0]:
                     continue
